@@ -239,7 +239,8 @@ Print Assumptions c07_pinned_code_refuted.
 (* the checker evaluated on the implementation's observations is the property *)
 Theorem c07_check_sound : forall ops os,
   check (mkCase ops os) = [] <->
-  no_panic os /\ nothing_held os /\ canaries_served true ops os [] /\ canaries_served false ops os [].
+  no_panic os /\ nothing_held os /\ (canaries_served true ops os [] /\ replies_arrived os) /\
+  canaries_served false ops os [].
 Proof. exact check_history_sound. Qed.
 Print Assumptions c07_check_sound.
 
@@ -248,10 +249,15 @@ Theorem c07_check_stress_sound : forall aborted free_scans,
 Proof. exact check_stress_sound. Qed.
 Print Assumptions c07_check_stress_sound.
 
-Theorem c07_check_race_sound : forall v crashed served,
-  check (mkRace v crashed served) = [] <-> crashed = false /\ served = true.
+Theorem c07_check_race_sound : forall v crashed hung served,
+  check (mkRace v crashed hung served) = [] <-> crashed = false /\ hung = false /\ served = true.
 Proof. exact check_race_sound. Qed.
 Print Assumptions c07_check_race_sound.
+
+Theorem c07_check_abnormal_sound : forall crashed hung,
+  check (mkAbnormal crashed hung) = [] <-> crashed = false /\ hung = false.
+Proof. exact check_abnormal_sound. Qed.
+Print Assumptions c07_check_abnormal_sound.
 
 (* a wake-up of an instance's reader never follows the close of that instance: Done marks
    the token finished, and a message for a finished token is dropped without handler call *)
